@@ -350,6 +350,30 @@ PROPS["C12"] = dict(
     assumptions=ASSUME_COMMON,
 )
 
+PROPS["C17"] = dict(
+    units=[dict(name="c17", src="props/c17.cpp", deps=["lib/pwc.hpp"])],
+    rule="case = numeric type x integrator x 0..60 calls x behaviour pattern per call (constant, zero, alternating, zero but "
+         "asks for the weight, projector on some calls, NaN / zero / inf, negative with weight requests) x with / without "
+         "distribution x engine: scripted 64-bit engine whose canonical numbers are 0, the largest value below 1, the raw "
+         "output that rounds to 1, or generated - or mt19937; PLAIN / VEGAS: 1-4 dims, uniform or power grid; multi-channel: "
+         "1-6 PWC channels, weights incl. zeros, densities early or late, padded coordinate buffer; non-trivial: "
+         "multi-channel with a disabled channel and both zero and non-zero integrand values, or an extreme canonical "
+         "number; distinct = distinct description",
+    quick=dict(shards=8, cases=2500),
+    thorough=dict(shards=16, cases=120000),
+    floors={"disabled-channel": 0.1, "extreme-canonical-number": 0.3, "MULTI": 0.25, "VEGAS": 0.2, "PLAIN": 0.2},
+    level_text="invariant over the event log of an instrumented integrand and channel map: PLAIN one call per point, "
+               "coordinates in [0,1), weight 1; VEGAS coordinates in [0,1], bin < bins, point inside its bin; "
+               "multi-channel per call: coordinates request (enabled channel, full ascending enabled list, random numbers "
+               "in [0,1), buffer sizes) -> integrand (same channel / buffers / numbers) -> densities request iff the value "
+               "is non-zero or the weight was asked for directly or through the projector, with the same channel, numbers "
+               "and buffer objects whose contents are untouched in between, never twice; exploration over generated inputs",
+    level_note="trusted: the event log (addresses and FNV hashes of buffer contents); libstdc++'s generate_canonical "
+               "clamps 1.0, so [0,1) is what the library can rely on",
+    technique="rapidcheck over choice tapes; event-log protocol invariant with a scripted engine",
+    assumptions=ASSUME_COMMON,
+)
+
 NOT_APPLICABLE = {}
 
 ENGINES = [
